@@ -128,6 +128,11 @@ func (v *VerifC14) CreateIngressEx(ing *networking.Ingress, validHosts map[strin
 	return v.lbc.createIngressEx(ing, validHosts, nil)
 }
 
+// CreateMinionIngressEx = createIngressEx for a minion (with its valid paths).
+func (v *VerifC14) CreateMinionIngressEx(ing *networking.Ingress, validHosts map[string]bool, validMinionPaths map[string]bool) *configs.IngressEx {
+	return v.lbc.createIngressEx(ing, validHosts, validMinionPaths)
+}
+
 func (v *VerifC14) CreateVirtualServerEx(vs *conf_v1.VirtualServer, vsrs []*conf_v1.VirtualServerRoute) *configs.VirtualServerEx {
 	return v.lbc.createVirtualServerEx(vs, vsrs)
 }
